@@ -61,6 +61,58 @@ def run(chk, facts, info):
            'the end-of-pass phase %s: diagnostics a target raises when it is switched off appear in the next pass or '
            'the next file (wrong -E log, error count already reset), and a listing that is not open yet is written to' %
            ('does not run the target\'s SwitchFrom on path ' + ' '.join(w[-4:]) if not ok else 'closes the error accounting first'))
+    chk.rule('C18-R6', 'asmallg.c ParseCPUArgs(): the "name=value:..." list it cuts apart (StrCompSplitRef() writes NULs into its '
+             'source) is a private copy in a local buffer, never a reference to the caller\'s component: the -cpu command '
+             'line value that AssembleFile_InitPass() passes for every file and pass stays intact', min_instances=2)
+    pa = facts.func('asmallg.c', 'ParseCPUArgs')
+    params = {('p', q['name']) for q in pa.params}
+    larr = {n_ for n_, t in pa.locals.items() if not t.get('ptr') and t.get('size', 0) >= 64 and t.get('bits') is None}
+
+    def origin(ex, var):
+        for m in walk_own(ex):
+            if m[0] == 'call' and callee_name(m) and m[2]:
+                a0 = nocast(m[2][0])
+                if not (a0[0] == 'u' and a0[1] == '&' and strip(a0[2]) == var):
+                    continue
+                cn = callee_name(m)
+                if cn == 'StrCompMkTemp' and len(m[2]) > 1 and strip(m[2][1])[0] == 'l':
+                    return 'private'
+                if cn.startswith('StrCompRef') and len(m[2]) > 1 and strip(m[2][1]) in params:
+                    return 'callers'
+                if cn.startswith('StrCompRef') or cn == 'StrCompSplitRef':
+                    return None          # derived from another local: origin unchanged
+            if is_assign(m) and m[1] == '=' and strip(m[2]) == var and strip(m[3])[0] == 'l':
+                return None
+        return None
+    k6 = 0
+    for b, i, ln, c in pa.calls('StrCompSplitRef'):
+        if len(c[2]) < 3:
+            continue
+        src = nocast(c[2][2])
+        if not (src[0] == 'u' and src[1] == '&'):
+            continue
+        var = strip(src[2])
+        # follow "var = other" / split results back to the component that was initialised
+        roots = {var}
+        for b2, i2, l2, m in pa.nodes():
+            if is_assign(m) and m[1] == '=' and strip(m[2]) in roots and strip(m[3])[0] == 'l':
+                roots.add(strip(m[3]))
+            if m[0] == 'call' and callee_name(m) == 'StrCompSplitRef' and len(m[2]) >= 3:
+                outs = {strip(nocast(x)[2]) for x in m[2][:2] if nocast(x)[0] == 'u'}
+                if outs & roots and nocast(m[2][2])[0] == 'u':
+                    roots.add(strip(nocast(m[2][2])[2]))
+        k6 += 1
+        lw = set()
+        for r_ in roots:
+            lw |= pa.last_writers(b, i, lambda ex, r_=r_: origin(ex, r_)) - {'entry'}
+        ok = lw == {'private'}
+        chk.ob('C18-R6', 'asmallg.c:ParseCPUArgs:split-source@%d' % k6, ok, pa.loc(ln),
+               'splits a private copy' if ok else
+               'the component that is cut apart can be %s: the NULs are written into the caller\'s string, so the second '
+               'file (and the second pass) sees "-cpu X:arg" without "=value" and falls back to the default' %
+               (', '.join(sorted(lw)) or 'uninitialised'))
+    if k6 < 2:
+        raise AnalysisBroken('ParseCPUArgs: split operations not found')
     chk.note('Decided: reset completeness of core state, target interface exhaustiveness of all CPU switch functions, '
              'reset of registered per-target state. Not decided: equality of outputs for concrete file pairs; private '
              'statics of code generators beyond the registered ones.')
